@@ -186,6 +186,7 @@ type Cell struct {
 	deadline    time.Time
 	Fatal       bool // set when the cell cannot continue (execution aborted)
 	DebugLog    []string
+	Index       int // index of the cell in its package's (property, tier) list
 	probing     bool
 	probeSeen   map[string]bool
 	deferEmit   bool
@@ -426,8 +427,13 @@ func Main(t *testing.T, pkg string) {
 			continue
 		}
 		x := newCell(t, prop, tier, c.name, pkg, seed)
+		x.Index = i
 		if budget > 0 {
 			x.deadline = time.Now().Add(budget)
+		}
+		if os.Getenv("VERIF_BFS_CHILD") != "" {
+			c.fn(x) // serves BFS expansion requests of the parent on stdin/stdout and exits
+			os.Exit(0)
 		}
 		emit(map[string]any{"t": "cell_start", "cell": i, "name": c.name, "pkg": pkg})
 		c.fn(x)
